@@ -772,11 +772,16 @@ def classify_floats(case, blocks, clause, detail):
     # the second avoid_collisions of get_next_linebox is given the content height of the line (font size) instead of the
     # height of the line box: a float that only meets the lower half-leading of the line is ignored when the line is
     # aligned - the position is explained by the interval recomputed with the font size as height
-    if clause == 'float-start-x' and mm and case['ta'] in ('right', 'justify') and case['lh'] > case['fs']:
+    if clause in ('float-start-x', 'float-fit') and mm and case['ta'] in ('right', 'justify') and case['lh'] > case['fs']:
         x, w, lo, hi = (float(g) for g in mm.groups())
         l2, r2 = free_interval(B, B['floats'], ln['y'], ln['y'] + case['fs'])
-        if (l2, r2) != (lo, hi) and (abs(x + w - r2) < EPS or (case['ta'] == 'justify' and abs(w - (r2 - l2)) < EPS)):
-            return 'float-line-realigned-with-content-height'
+        # the line keeps the start position found with the height of the line box (lo) and is aligned / justified in
+        # the width found with the font size as height (r2 - l2)
+        if (l2, r2) != (lo, hi):
+            if case['ta'] == 'right' and abs(x - (lo + (r2 - l2) - w)) < EPS:
+                return 'float-line-realigned-with-content-height'
+            if case['ta'] == 'justify' and abs(w - (r2 - l2)) < EPS and abs(x - lo) < EPS:
+                return 'float-line-realigned-with-content-height'
     # floats that are inline children met at the start of line 0: one of them was placed below the top of that line
     # (clearance, no room beside the previous one) but still inside its vertical extent; the line is not shortened
     if case['inline'] and i == 0 and clause in ('float-start-x', 'float-fit', 'float-greedy'):
